@@ -1,6 +1,10 @@
 // C15: index arithmetic of the real colvar_grid<T>.
 #include "common.h"
 #include "colvargrid.h"
+#include "colvars_memstream.h"
+#include <fstream>
+#include <sstream>
+#include <unistd.h>
 
 struct grid_access : public colvar_grid_scalar {
   size_t addr(std::vector<int> const &ix) const { return this->address(ix); }
@@ -74,6 +78,86 @@ bool ops_c15(Ctx &c, Toks const &t)
     cvm::clear_error();
     std::vector<std::string> o; for (int v : ix) o.push_back(itok(v));
     c.out("ix", join(o));
+    return true;
+  }
+  if (t[0] == "g.fill") {       // g.fill v0 v1 ... : the data array, in address order
+    for (size_t i = 1; i < t.size() && i - 1 < G->data.size(); i++) G->data[i - 1] = f_of(t[i]);
+    G->has_data = true;
+    return true;
+  }
+  if (t[0] == "g.rt") {         // g.rt multicol|restart|raw|restartbin|rawbin : write, read back into a fresh grid, report it
+    cvm::clear_error();
+    grid_access H;
+    bool ok = true;
+    std::string const kind = t[1];
+    if (kind == "multicol") {
+      std::string const fn = std::string(getenv("CV_SCRATCH") ? getenv("CV_SCRATCH") : "/tmp") + "/c15_rt_" + std::to_string((long) getpid()) + ".dat";
+      { std::ofstream os(fn.c_str()); G->write_multicol(os); }
+      // the constructor from a file takes sizes, boundaries, widths and periodicity from the header
+      colvar_grid_scalar *F = new colvar_grid_scalar(fn);
+      std::remove(fn.c_str());
+      ok = (cvm::get_error() == COLVARS_OK);
+      H.nd = F->nd; H.nx = F->nx; H.mult = F->mult; H.lower_boundaries = F->lower_boundaries; H.widths = F->widths; H.periodic = F->periodic; H.data = F->data;
+      delete F;
+    } else {
+      // the reader is configured like the writer (same number of variables, periodicity, multiplicity)
+      H.setup(G->nx, 0.0, G->mult);
+      H.lower_boundaries = G->lower_boundaries; H.upper_boundaries = G->upper_boundaries; H.widths = G->widths; H.periodic = G->periodic;
+      if (kind == "raw") {
+        std::ostringstream os; os.precision(17); G->write_raw(os, 3);
+        std::istringstream is(os.str()); ok = (bool) H.read_raw(is);
+      } else if (kind == "rawbin") {
+        cvm::memory_stream os; G->write_raw(os);
+        cvm::memory_stream is(os.length(), os.output_buffer()); ok = (bool) H.read_raw(is);
+      } else {
+        // restart form: the parameter block is compared with the variables' own boundaries, so both grids are built on
+        // throw-away variables with the grid's boundaries and widths
+        static long nrt = 0;
+        std::vector<colvar *> cvs;
+        std::string conf;
+        for (size_t i = 0; i < G->nd; i++) {
+          std::string const name = "rt" + std::to_string(nrt) + "_" + std::to_string(i);
+          conf += "colvar {\n name " + name + "\n lowerBoundary " + num17(G->lower_boundaries[i].real_value) + "\n upperBoundary " +
+            num17(G->lower_boundaries[i].real_value + G->nx[i] * G->widths[i]) + "\n width " + num17(G->widths[i]) +
+            "\n distanceZ {\n main { atomNumbers 1 }\n ref { dummyAtom (0.0, 0.0, 0.0) }\n axis (0.0, 0.0, 1.0)\n }\n}\n";
+        }
+        c.proxy->colvars->read_config_string(conf);
+        cvm::clear_error();
+        for (size_t i = 0; i < G->nd; i++) {
+          colvar *cv = cvm::colvar_by_name("rt" + std::to_string(nrt) + "_" + std::to_string(i));
+          if (cv) cvs.push_back(cv);
+        }
+        nrt++;
+        if (cvs.size() == G->nd) {
+          colvar_grid_scalar A(cvs), B(cvs);
+          if (A.data.size() == G->data.size()) {
+            A.data = G->data; A.has_data = true;
+            if (kind == "restart") {
+              std::ostringstream os; os.precision(17); A.write_restart(os);
+              std::istringstream is(os.str()); ok = (bool) B.read_restart(is);
+            } else {
+              cvm::memory_stream os; A.write_restart(os);
+              cvm::memory_stream is(os.length(), os.output_buffer()); ok = (bool) B.read_restart(is);
+            }
+            H.nd = B.nd; H.nx = B.nx; H.mult = B.mult; H.lower_boundaries = B.lower_boundaries; H.widths = B.widths; H.periodic = B.periodic; H.data = B.data;
+          } else ok = false;
+        } else ok = false;
+        for (size_t i = 0; i < cvs.size(); i++) delete cvs[i];
+      }
+    }
+    c.out("ok", itok(ok && cvm::get_error() == COLVARS_OK ? 1 : 0));
+    cvm::clear_error();
+    std::vector<std::string> o;
+    for (size_t i = 0; i < H.nx.size(); i++) o.push_back(itok(H.nx[i]));
+    c.out("nx", join(o));
+    o.clear(); for (size_t i = 0; i < H.lower_boundaries.size(); i++) o.push_back(ftok(H.lower_boundaries[i].real_value));
+    c.out("lo", join(o));
+    o.clear(); for (size_t i = 0; i < H.widths.size(); i++) o.push_back(ftok(H.widths[i]));
+    c.out("w", join(o));
+    o.clear(); for (size_t i = 0; i < H.periodic.size(); i++) o.push_back(itok(H.periodic[i] ? 1 : 0));
+    c.out("per", join(o));
+    o.clear(); for (size_t i = 0; i < H.data.size(); i++) o.push_back(ftok(H.data[i]));
+    c.out("data", join(o));
     return true;
   }
   if (t[0] == "g.enum") {
